@@ -110,6 +110,30 @@ fn observe<B: Conv>(c: &C) -> String {
         }
         v
     });
+    // 6. one reader, used twice: k items through records(), the rest through into_records()
+    let k = (mode_of(&[format!("{:?}", data.len()), format!("{:?}", c.frags)]) % 3 + 1) as usize;
+    guarded(&mut w, &|| {
+        let mut r = Reader::new(&data[..], c.pfx.clone());
+        let mut v: Vec<std::io::Result<B>> = r.records::<B>().take(k).collect();
+        v.extend(r.into_records::<B>());
+        v
+    });
+    // 7. one line through read_record, the rest through records()
+    guarded(&mut w, &|| {
+        let mut r = Reader::new(&data[..], c.pfx.clone());
+        let mut v: Vec<std::io::Result<B>> = vec![];
+        let mut buf = String::new();
+        loop {
+            match r.read_record(&mut buf) {
+                Ok(LineSize::Size(0)) => return v,
+                Ok(LineSize::Skip) => { buf.clear(); continue; }
+                Ok(_) => { v.push(buf.parse::<B>().map_err(|_| std::io::Error::new(std::io::ErrorKind::Other, "parse"))); break; }
+                Err(e) => { v.push(Err(e)); break; }
+            }
+        }
+        v.extend(r.records::<B>());
+        v
+    });
     w.join()
 }
 
